@@ -42,6 +42,7 @@ def shard(ctx: Ctx) -> None:
     sweep.keepalive_values_sweep(ctx, PROP)
     sweep.hello_content_sweep(ctx, PROP)
     sweep.abandoned_disconnect_sweep(ctx, PROP)
+    sweep.crossing_requests_sweep(ctx, PROP)
     sweep.reconnect_in_on_stop_sweep(ctx, PROP)
     sweep.outside_loop_client_sweep(ctx, PROP)
     sweep.dropped_client_sweep(ctx, PROP)
